@@ -90,6 +90,8 @@ fn main() {
             let stats = mc::c15::c15(&mut run, &workers);
             run.finish(&stats)
         }
+        #[cfg(feature = "hooks")]
+        "C19" => simple_cmd("C19", mc::c19::c19),
         #[cfg(feature = "pattern")]
         "C20" => simple_cmd("C20", mc::c20::c20),
         "C16" => simple_cmd("C16", mc::apichecks::c16),
